@@ -76,6 +76,30 @@ func validateFixed(profile, data string) call {
 	})
 }
 
+// Routes: the four ways of getting a report for (profile text, data text). Checks whose oracle does not look at
+// dateCreated draw one per case: what a report says must not depend on the entry point that produced it.
+var routeNames = []string{"ValidateWithConfiguration", "CompileProfile+ValidateCompiledWithConfiguration", "Validate", "CompileProfile+ValidateCompiled"}
+
+func validateVia(route int, profile, data string) call {
+	switch route % 4 {
+	case 1:
+		q, cc := compileProfile(profile)
+		if cc.failed() {
+			return cc
+		}
+		return validateCompiledFixed(q, data)
+	case 2:
+		return guard(func() (string, error) { return pkg.Validate(profile, data, false, nil) })
+	case 3:
+		q, cc := compileProfile(profile)
+		if cc.failed() {
+			return cc
+		}
+		return guard(func() (string, error) { return pkg.ValidateCompiled(q, data, false, nil) })
+	}
+	return validateFixed(profile, data)
+}
+
 func compileProfile(profile string) (q *rego.PreparedEvalQuery, c call) {
 	return compileProfileDebug(profile, false)
 }
